@@ -81,6 +81,8 @@ pub const FAULTS: &[&str] = &[
     "200-no-choices",
     "200-empty-choices",
     "200-null-content",
+    "200-refusal-no-content",
+    "200-message-without-content",
     "closed-mid-body",
     "closed-at-once",
     "200-empty-body",
@@ -100,6 +102,17 @@ fn fault_reply(kind: &str) -> Reply {
             200,
             "application/json",
             json!({"id": "x", "object": "chat.completion", "created": 1, "model": "m", "choices": [{"index": 0, "message": {"role": "assistant", "content": null}, "finish_reason": "stop"}]}).to_string(),
+        ),
+        // content-less in two more shapes: a refusal instead of content, and a message without a content field
+        "200-refusal-no-content" => Reply::Raw(
+            200,
+            "application/json",
+            json!({"id": "x", "object": "chat.completion", "created": 1, "model": "m", "choices": [{"index": 0, "message": {"role": "assistant", "content": null, "refusal": "I cannot help with that."}, "finish_reason": "stop"}]}).to_string(),
+        ),
+        "200-message-without-content" => Reply::Raw(
+            200,
+            "application/json",
+            json!({"id": "x", "object": "chat.completion", "created": 1, "model": "m", "choices": [{"index": 0, "message": {"role": "assistant"}, "finish_reason": "stop"}]}).to_string(),
         ),
         "closed-mid-body" => Reply::CloseMidBody,
         "closed-at-once" => Reply::CloseAtOnce,
@@ -405,7 +418,7 @@ pub fn case_strategy() -> BoxedStrategy<AiCase> {
     );
     (
         proptest::collection::vec(block, 1..9),
-        proptest::option::weighted(0.45, (0u8..14, any::<u8>())),
+        proptest::option::weighted(0.45, (0u8..16, any::<u8>())),
         prop_oneof![Just("test-key".to_string()), Just("sk-ÿ-not-ascii".to_string()).prop_map(|_| "sk-123_ABC".to_string())],
         prop_oneof![Just("gpt-5-nano".to_string()), Just("my/model:v1".to_string())],
         any::<bool>(),
@@ -455,7 +468,7 @@ pub fn extract_cases() -> Vec<AiCase> {
 
 pub fn run(run: &mut Run) {
     run.enumerate("extracts", extract_cases(), Some("every pattern of the key-pattern family x 6 multi-line contents x {Python, JavaScript} host"), check);
-    run.rule = "enumerated extracts: one check-ai block per (pattern of the key-pattern family, one of 6 multi-line contents in which only a non-last line or only the last line could match a line-anchored reading, Python or JavaScript host): the request must carry the first match in the content taken as ONE text. random: 1..8 check-ai blocks spread over up to 3 files (Python `#` comments, or a JavaScript block comment with the condition spread over two lines), conditions and contents over printable ASCII incl. quotes, backslashes, braces, escapes, plus Unicode/NBSP/emoji and template-placeholder look-alikes (`{condition}`, `{block}`, `{}`, `%s`), optional check-ai-pattern from the key-pattern family, plain blocks without check-ai in front of 25% of them, 20% twins of the previous block (same condition, content, pattern and reply: one request each all the same), severity warning in 20%, scan or new-file diff mode, two keys and two model names; in half of the cases the OpenAI SDK's own OPENAI_API_KEY / OPENAI_BASE_URL / OPENAI_ORG_ID variables are set to foreign values; reply per block from 20 texts (OK, ok, Ok., OK., oK, ` OK`, `OK `, OKAY, OK.., multi-line, quotes/backslashes/tab, Unicode, empty, Greek / full-width / digit-zero / zero-width look-alikes of OK); in 45% one fault from 14 kinds (no key, empty key, connection refused, 400/401 JSON, 404/400 plain, 200 invalid JSON, 200 without choices, empty choices, null content, closed mid-body, closed at once, empty body) injected on the k-th arriving request. A recording fake endpoint is the observer. Non-trivial = a fault case, or >= 2 blocks with content that JSON must escape.".into();
+    run.rule = "enumerated extracts: one check-ai block per (pattern of the key-pattern family, one of 6 multi-line contents in which only a non-last line or only the last line could match a line-anchored reading, Python or JavaScript host): the request must carry the first match in the content taken as ONE text. random: 1..8 check-ai blocks spread over up to 3 files (Python `#` comments, or a JavaScript block comment with the condition spread over two lines), conditions and contents over printable ASCII incl. quotes, backslashes, braces, escapes, plus Unicode/NBSP/emoji and template-placeholder look-alikes (`{condition}`, `{block}`, `{}`, `%s`), optional check-ai-pattern from the key-pattern family, plain blocks without check-ai in front of 25% of them, 20% twins of the previous block (same condition, content, pattern and reply: one request each all the same), severity warning in 20%, scan or new-file diff mode, two keys and two model names; in half of the cases the OpenAI SDK's own OPENAI_API_KEY / OPENAI_BASE_URL / OPENAI_ORG_ID variables are set to foreign values; reply per block from 20 texts (OK, ok, Ok., OK., oK, ` OK`, `OK `, OKAY, OK.., multi-line, quotes/backslashes/tab, Unicode, empty, Greek / full-width / digit-zero / zero-width look-alikes of OK); in 45% one fault from 16 kinds (no key, empty key, connection refused, 400/401 JSON, 404/400 plain, 200 invalid JSON, 200 without choices, empty choices, null content, a refusal instead of content, a message without a content field, closed mid-body, closed at once, empty body) injected on the k-th arriving request. A recording fake endpoint is the observer. Non-trivial = a fault case, or >= 2 blocks with content that JSON must escape.".into();
     run.assumptions = vec![
         "429 and 5xx are not injected: the client library retries them with back-off for minutes and the statement does not list them".into(),
         "which block the k-th arriving request belongs to is not controlled".into(),
